@@ -85,6 +85,9 @@ fn alphabet(_b: &Built) -> Vec<Op> {
     }
     a.push(Op::CollectFees { pos: 0, v2: true });
     a.push(Op::CollectProtocol { v2: true });
+    // reposition_liquidity_v2 nets the old range's withdrawal against the new range's deposit and moves only the difference
+    a.push(Op::Repos { pos: 0, lower: -64, upper: 192, liq: stdworlds::BIG / 2 });
+    a.push(Op::Repos { pos: 0, lower: -128, upper: 128, liq: stdworlds::BIG * 2 });
     a
 }
 
@@ -185,7 +188,7 @@ fn swap_oracle(wd: &W, pre: &Ledger, st: &Stepped, a_to_b: bool, exact_in: bool,
 
 fn liq_oracle(wd: &W, pre: &Ledger, st: &Stepped, pos: usize, liq: u128, increase: bool, s: &mut Stats) -> Result<(), String> {
     let w = &wd.b.w;
-    let p = &w.positions[pos];
+    let p = &w.positions[pos].at(pre);
     let post = &st.ledger;
     let pool = w.pool.state(pre);
     let (pl, pu) = (sqrt_price_from_tick_index(p.lower), sqrt_price_from_tick_index(p.upper));
@@ -247,6 +250,55 @@ fn liq_oracle(wd: &W, pre: &Ledger, st: &Stepped, pos: usize, liq: u128, increas
     Ok(())
 }
 
+/// reposition with transfer-fee mints: per token the vault's net change is exactly ceil(new range) - floor(old range); when the
+/// owner pays the difference they pay the smallest fee-including amount, when they receive it they receive it minus the fee.
+fn repos_oracle(wd: &W, pre: &Ledger, st: &Stepped, pos: usize, new_lower: i32, new_upper: i32, new_liq: u128, s: &mut Stats) -> Result<(), String> {
+    let w = &wd.b.w;
+    let post = &st.ledger;
+    let p = w.positions[pos].at(pre);
+    let pool = w.pool.state(pre);
+    let amounts = |lower: i32, upper: i32, liq: u128| -> (Q, Q) {
+        let (pl, pu) = (sqrt_price_from_tick_index(lower), sqrt_price_from_tick_index(upper));
+        if pool.tick_current_index < lower {
+            (exact_delta_a(pl, pu, liq), Q::zero())
+        } else if pool.tick_current_index < upper {
+            (exact_delta_a(pool.sqrt_price, pu, liq), exact_delta_b(pl, pool.sqrt_price, liq))
+        } else {
+            (Q::zero(), exact_delta_b(pl, pu, liq))
+        }
+    };
+    let old_liq = p.state(pre).liquidity;
+    let (oa, ob) = amounts(p.lower, p.upper, old_liq);
+    let (na, nb) = amounts(new_lower, new_upper, new_liq);
+    let toi = |x: BigUint| x.to_string().parse::<i128>().unwrap_or(i128::MAX);
+    let expect = [toi(na.ceil()) - toi(oa.floor()), toi(nb.ceil()) - toi(ob.floor())];
+    let vault = [w.pool.vault_a, w.pool.vault_b];
+    let wallet = [w.lp.acct_a, w.lp.acct_b];
+    let fee = [wd.fee_a, wd.fee_b];
+    for t in 0..2 {
+        let dv = balance(post, &vault[t]) as i128 - balance(pre, &vault[t]) as i128;
+        let dw = balance(pre, &wallet[t]) as i128 - balance(post, &wallet[t]) as i128; // positive = owner paid
+        if dv != expect[t] {
+            return Err(format!("reposition: vault {} net change {dv}, expected new deposit (rounded up) minus old withdrawal (rounded down) = {}", if t == 0 { "A" } else { "B" }, expect[t]));
+        }
+        if dv > 0 {
+            if dw < 0 || !least_preimage_ok(&fee[t], dw as u64, dv as u64) {
+                return Err(format!("reposition: owner paid {dw} for a vault increase of {dv}: not the smallest fee-including amount"));
+            }
+        } else if dv < 0 {
+            let out = (-dv) as u64;
+            if -dw != fee[t].net(out) as i128 {
+                return Err(format!("reposition: vault paid {out} but the owner received {}", -dw));
+            }
+        } else if dw != 0 {
+            return Err(format!("reposition: owner balance moved by {dw} although the vault did not change"));
+        }
+    }
+    s.incs += 1;
+    s.decs += 1;
+    Ok(())
+}
+
 fn model<'a>(wd: &'a W, stats: &'a Mutex<Stats>) -> PoolModel<'a> {
     PoolModel::new(
         &wd.b.w,
@@ -265,6 +317,7 @@ fn model<'a>(wd: &'a W, stats: &'a Mutex<Stats>) -> PoolModel<'a> {
                     };
                     swap_oracle(wd, pre, st, *a_to_b, *exact_in, *amount, limit, &ix_of, &mut local)
                 }
+                Op::Repos { pos, lower, upper, liq } => repos_oracle(wd, pre, st, *pos as usize, *lower, *upper, *liq, &mut local),
                 Op::Inc { pos, liq, .. } => liq_oracle(wd, pre, st, *pos as usize, *liq, true, &mut local),
                 Op::Dec { pos, part, .. } => {
                     let cur = w.positions[*pos as usize].state(pre).liquidity;
